@@ -219,7 +219,7 @@ func init() {
 	MonitorsFor["C16"] = one(monitors.StakeSchedule{})
 	Register(&Check{ID: "C16", Level: "model_checking", Run: func(c *Ctx) {
 		c16Explore(c, "C16", runs, func() explore.Monitor { return monitors.StakeSchedule{} })
-		c.Ev.Coverage["oracle"] = "reference schedule model: (block rule, state before/after a step) funds due in the step are gone, funds due later are untouched, every new fund belongs to an accepted Unbond (+531) / MoveStake (+177) / Lock (due block) of the block or to a candidate removal (+531); in steps without transactions every balance changes by exactly the sum of the non-move funds due for it and every due move raises what its live target candidate holds for the owner by exactly its value; a fault of BeginBlock while a move is due is a violation; (transaction rule, twin without the last transaction) exactly one new fund with the right due height / value / owner / source / target id, stake+updates+waitlist of the sender at the source falls by exactly the value, nothing reaches the sender's balance, MoveStake only towards a live candidate, Unbond rejected while LockStakeUntilBlock > height, no other transaction type changes the frozen funds"
+		c.Ev.Coverage["oracle"] = "reference schedule model: (block rule, state before/after a step) funds due in the step are gone, funds due later are untouched, every new fund belongs to an accepted Unbond (+531) / MoveStake (+177) / Lock (due block) of the block or to a candidate removal (+531); in steps without transactions every balance changes by exactly the sum of the non-move funds due for it and every due move raises what its live target candidate holds for the owner by exactly its value (only exception: a move whose target candidate was removed before the due block returns its full value to the owner's balance at the due block); a fault of BeginBlock while a move is due is a violation; (transaction rule, twin without the last transaction) exactly one new fund with the right due height / value / owner / source / target id, stake+updates+waitlist of the sender at the source falls by exactly the value, nothing reaches the sender's balance, MoveStake only towards a live candidate, Unbond rejected while LockStakeUntilBlock > height, no other transaction type changes the frozen funds"
 		c.Ev.Assumptions = append(c.Ev.Assumptions,
 			"periods are the testnet ones (unbond 531, move 177 blocks; types.CurrentChainID = ChainTestnet in all worlds); the mainnet values differ only in the constants returned by types.Get*PeriodWithChain",
 			"byzantine unbonding: the schedule (stakes leave for exactly one unbond period, funds of the candidate keep their due block) is judged here with the 95 % factor taken as given; the amounts of the slash are C18's subject",
